@@ -1,6 +1,6 @@
 """which stages decide which property, and what each claim says"""
 
-FIX_COMMITS = ["88f9d1c", "d6a9f9a", "829a1d9", "4f7f1cb", "76e0d75", "61968ad"]
+FIX_COMMITS = ["88f9d1c", "d6a9f9a", "829a1d9", "4f7f1cb", "76e0d75", "61968ad", "ba25d88", "86fe658", "3b956e0", "e0cf456", "6a1a7ff", "750288e"]
 
 TB_VERUS = [
     "Verus 0.2026.09.13 + Z3 (verifier, encoding of Rust semantics, vstd specs of Vec/String/str/slice iterators/Option/arrays)",
@@ -20,6 +20,13 @@ TB_ROPE = [
     "axioms: a str is at most usize::MAX bytes long (vstd's str::len is spec_bytes().len() as usize); a Vec holds at most usize::MAX elements",
     "rules V1 M1 M3 P1 P2 D3 D8 C3 C4 C5 C6 G2 R2t (contracts/rope_core.py): G2 instantiates `R: RangeBounds<usize>` at (Bound<usize>, Bound<usize>), the most general instance; R2t turns `(a..b).try_for_each(|i| {..})?` into the equivalent `for` loop",
     "Rope total length fits usize (requires of add/append): pieces are borrowed, so the same memory can be appended repeatedly; exceeding usize::MAX needs > 2^64 bytes of pieces",
+]
+
+TB_ROPE_OBS = [
+    "unit rope_obs: assume_specification for str::starts_with::<P> / str::ends_with::<P> (generic over Pattern: the answer is an uninterpreted function of (string, pattern)) with three axioms fixing it for the instances used - "
+    "`&str` / `&&str` prefix patterns: byte-prefix test (std's implementation is `haystack.as_bytes().starts_with(needle.as_bytes())`), `char` suffix pattern: the string is non-empty and its last char is the pattern; "
+    "<str as Index<I>>::index (exposes vstd's own index_postcondition); axiom: `==` on [u8] slices is equality of the byte sequences (std's PartialEq for slices)",
+    "rule A1 (contracts/rope_obs.py): `X.iter().all(|(s, _)| E)` -> a `for` loop accumulating the conjunction (E has no side effects)",
 ]
 
 from vx.kstages import k1_replace_inv, k2_eq_hash, k4_with_indices, k5_codec_cross  # noqa: E402
@@ -48,7 +55,7 @@ PLAN = {
     "C17": {
         "level": "proof",
         "witness": mixed_witness,
-        "verus_units": ["codec_dec", "codec_enc", "replace_splice", "replace_helpers", "helpers_tokens", "rope_bounds", "rope_core"],
+        "verus_units": ["codec_dec", "codec_enc", "replace_splice", "replace_helpers", "helpers_tokens", "rope_bounds", "rope_core", "rope_obs"],
         "extra_stages": [k5_codec_cross],
         "kani": True,
         "technique": "contract-based deductive verification (Verus): overflow/shift/index/termination obligations of the real decoder and encoders under a representation invariant",
@@ -59,11 +66,12 @@ PLAN = {
                  "Rope's two range-bound helpers are total (found and fixed an overflow at usize::MAX); "
                  "PotentialTokens::next (OriginalSource's tokenizer) slices only in range on char boundaries, always makes progress and returns exactly the next consecutive slice, for every UTF-8 text. "
                  "Rope::{new, add, append, len, get_byte, get_byte_slice, byte_slice (on valid ranges), get_byte_slice_impl} never overflow, underflow or index out of range on any rope satisfying the representation invariant, for every range bound (unit rope_core). "
+                 "Rope::{is_empty, ends_with, starts_with} (unit rope_obs) never slice a str off a char boundary or out of range and terminate, for every pair of ropes however divided into pieces (found and fixed a char-boundary panic in starts_with this way). "
                  "JSON parsers, chunk streaming and the remaining Rope methods are not decided.",
         "note": "Partial: only the decoder/encoder half of the property. Trusted: Verus/Z3/vstd, extraction rules, assume_specifications listed in evidence.",
-        "trusted_base": TB_VERUS + TB_CODEC_ENC + TB_ROPE,
+        "trusted_base": TB_VERUS + TB_CODEC_ENC + TB_ROPE + TB_ROPE_OBS,
         "assumptions": ["mappings string shorter than u32::MAX - 1 bytes", "encoder input sorted by generated line (any u32 values)", "ReplaceSource: positions on char boundaries or beyond the end, inner text < 4 GiB; in this view the total length of the rope built by ReplaceSource::rope is assumed to fit usize (C05's view proves it from the spliced text fitting usize)"],
-        "not_covered": ["SourceMap::from_json/from_slice/from_reader (simd-json)", "every stream_chunks implementation", "Rope::from_iter / lines / char_indices / starts_with / eq / to_string", "ReplaceSource::stream_chunks / map"],
+        "not_covered": ["SourceMap::from_json/from_slice/from_reader (simd-json)", "every stream_chunks implementation", "Rope::from_iter / lines / char_indices / PartialEq<Rope> / PartialEq<&str> / hash", "ReplaceSource::stream_chunks / map"],
         "design_ref": "DESIGN.md §4/C17",
     },
     "C11": {
@@ -128,17 +136,21 @@ PLAN = {
     "C16": {
         "level": "proof",
         "witness": rope_witness,
-        "verus_units": ["rope_core", "rope_bounds"],
-        "technique": "contract-based deductive verification (Verus) of the real Rope constructors, mutators, byte lookup and slicing against the flat string the pieces denote, under a representation invariant, extracted mechanically each run",
+        "verus_units": ["rope_core", "rope_obs", "rope_bounds"],
+        "technique": "contract-based deductive verification (Verus) of the real Rope constructors, mutators, byte lookup, slicing, rendering and the observers is_empty / ends_with / starts_with / == str against the flat string the pieces denote, under a representation invariant, extracted mechanically each run",
         "claim": "Partial, unbounded proof: with bytes() = concatenation of the pieces and the invariant `every piece records its start offset, total fits usize`, the real Rope::new / From<&str> / add / append "
                  "establish or preserve the invariant and denote exactly the concatenated text for every piece division (all four representation combinations of append, shared piece tables through Rc::make_mut); "
                  "len() is the text's length; get_byte(i) is Some(text[i]) exactly for i < len; get_byte_slice_impl / get_byte_slice / byte_slice return the sub-text exactly for ranges that are in order, in bounds and on char "
                  "boundaries of the TEXT (char boundaries of a piece are char boundaries of the text and vice versa: UTF-8 lemmas over vstd) and None/Err exactly otherwise, for every kind of range bound; no overflow, underflow or "
-                 "out-of-range index on that path. byte_slice_unchecked returns the same sub-text on every call that keeps its documented contract. to_bytes() and to_string() render exactly the denoted text; `rope == str` never slices out of range (its answer is not decided: vstd does not specify == on byte slices). Not decided: from_iter, lines, char_indices, starts_with, ends_with, is_empty, the answers of the equality impls, hash.",
+                 "out-of-range index on that path. byte_slice_unchecked returns the same sub-text on every call that keeps its documented contract. to_bytes() and to_string() render exactly the denoted text; `rope == str` answers exactly whether the denoted text equals the string (and never slices out of range). "
+                 "Unit rope_obs: is_empty() is true exactly when the denoted text is empty; ends_with(c) exactly when the text is non-empty and its last character is c (trailing empty pieces skipped); "
+                 "starts_with(other) exactly when other's text is a byte prefix of this text, in all four representation combinations, for every division of either text into pieces including empty pieces and comparison windows that "
+                 "cut multi-byte characters, with termination of the two-cursor loop (five genuine defects found and fixed in these three functions and in Rope == Rope, DESIGN 7). "
+                 "Not decided: from_iter, lines, char_indices, Rope == Rope and Rope == &str (the twin's search covers them), hash.",
         "note": "Partial. Trusted: Verus/Z3/vstd, extraction rules, the assume_specifications and two axioms listed in the evidence; get_byte additionally relies on the pinned std's binary_search_by returning the last match.",
-        "trusted_base": TB_VERUS + TB_ROPE,
+        "trusted_base": TB_VERUS + TB_ROPE + TB_ROPE_OBS,
         "assumptions": ["total rope length fits usize (requires of add/append)", "binary_search_by returns the last of several equal elements (pinned std; used by get_byte only)"],
-        "not_covered": ["Rope::from_iter (iterator adapter chain)", "Lines / CharIndices iterators", "starts_with / ends_with / is_empty / Hash / the answers of PartialEq (only PartialEq<str> is shown panic-free)"],
+        "not_covered": ["Rope::from_iter (iterator adapter chain)", "Lines / CharIndices iterators", "Hash", "PartialEq<Rope> and PartialEq<&str> for Rope (searched by the twin, not under contract)"],
         "design_ref": "DESIGN.md §4/C16",
     },
     "C14": {
